@@ -933,6 +933,23 @@ def _snap_ctf(label, event, outcomes, conditions, target_domain_graph, domain_gr
         cond_ev = [] if label == "ctfTRu" else gev.from_event(conditions)
     except Exception:  # noqa: BLE001
         valid, out_ev, cond_ev = False, [], []
+    c = kernel.LOG.case
+    if isinstance(c, dict) and c.get("via") == "wrapper" and valid:
+        # the CFTDomain / valued-variable call form: what reaches the algorithm must be what the caller wrote
+        def norm(e):
+            return sorted([n, sorted([i, bool(sg)] for i, sg in w), v] for n, w, v in e)
+
+        kernel.count("C09:wrapper-calls-compared")
+        if norm(out_ev) != norm(c.get("outcomes") or []) or norm(cond_ev) != norm(c.get("conditions") or []):
+            kernel.violation("C09", "wrapper-conversion", f"the caller asked for outcomes {norm(c.get('outcomes') or [])} given "
+                             f"{norm(c.get('conditions') or [])}; the wrapper handed {norm(out_ev)} given {norm(cond_ev)} to "
+                             f"the algorithm", case=dict(c))
+        want_doms = c.get("domains") or []
+        if len(want_doms) == len(doms):
+            for wd, d in zip(want_doms, doms):
+                if sorted(wd.get("policy") or []) != sorted(d.get("policy") or []) or \
+                        sorted(wd.get("transport") or []) != sorted(d.get("transport") or []):
+                    kernel.violation("C09", "wrapper-conversion", f"domain {wd} reached the algorithm as {d}", case=dict(c))
     return {"ref": ref, "valid": valid, "domains": doms, "outcomes": out_ev, "conditions": cond_ev}
 
 
